@@ -92,6 +92,16 @@ def field_order(ctx, rule):
                   detail=str(shapes))
         ctx.check(all(body.dominates(bi, site[0]) and site[0] != bi for sh, site in nonzero), rule, fn, "prev:%s:update-after-use" % g,
                   "the update happens after the delta was written, in the same iteration")
+        # ... and on every path: once the delta of a field was written, the token loop cannot come round again without the
+        # field's previous value having been updated (an update under a further condition leaves a stale value behind)
+        heads_ = [hb for hb, _ in body.loops() if body.dominates(hb, bi) and bi in dict(body.loops())[hb]]
+        upd = [site[0] for sh, site in nonzero]
+        if heads_ and upd:
+            outer = min(heads_, key=lambda hb: len(body.dominators_of(hb)))
+            nxt_ = [x for x in body.succ[bi] if not body.blocks[x]["cleanup"]]
+            from rules.common import loop_passes as _lp
+            ctx.check(all(_lp(body, x, outer, upd) for x in nxt_), rule, fn, "prev:%s:update-always" % g,
+                      "after the %s delta was written the previous value is updated on every path to the next token" % g, ctx.site(body, bi))
         src_guard = has_fact(body, bi, roles, ("true", "Token::has_source(token)", None))
         name_guard = has_fact(body, bi, roles, ("true", "Token::has_name(token)", None))
         if g == "get_dst_col":
